@@ -1,4 +1,5 @@
 //! `exec conv` / `exec brain`: the fine-structure convolution and the BRAIN coarse generator.
+use chemical_elements::isotopic_pattern::baffling::{IsotopicConstantsCache, IsotopicDistribution, NumPeaksSpec};
 use chemical_elements::isotopic_pattern::{
     isotopic_convolution, isotopic_variants, BafflingRecursiveIsotopicPatternGenerator, Peak,
 };
@@ -88,16 +89,51 @@ fn variants(
     })
 }
 
-/// `brain <pairs> <req> <z> <carrier> <form>`
+fn spec_of(req: &str) -> Option<NumPeaksSpec> {
+    Some(if req == "guess" {
+        0i32.into()
+    } else if req == "none" {
+        None::<i32>.into()
+    } else if let Some(n) = req.strip_prefix("n:") {
+        n.parse::<i32>().ok()?.into()
+    } else if let Some(n) = req.strip_prefix("u:") {
+        n.parse::<usize>().ok()?.into()
+    } else if let Some(n) = req.strip_prefix("some:") {
+        Some(n.parse::<i32>().ok()?).into()
+    } else if let Some(x) = req.strip_prefix("f:") {
+        (parse_frac(x)? as f32).into()
+    } else {
+        return None;
+    })
+}
+
+/// `brain <pairs> <req> <z> <carrier> <form>`; forms `dvec` / `dmap` go through the public constructor
+/// `IsotopicDistribution::from_composition`, `cvec` / `cmap` through `from_composition_and_cache` (fresh cache)
 pub fn run_brain(line: &str) -> String {
     let f: Vec<&str> = line.split('\t').collect();
     if f.len() != 6 {
         return "bad-line".into();
     }
-    let (Some(c), Ok(z), Some(carrier)) = (build_comp(f[1], f[5]), f[3].parse::<i32>(), parse_frac(f[4])) else {
+    let via = f[5].chars().next().filter(|c| (*c == 'd' || *c == 'c') && f[5].len() == 4);
+    let form = if via.is_some() { &f[5][1..] } else { f[5] };
+    let (Some(c), Ok(z), Some(carrier)) = (build_comp(f[1], form), f[3].parse::<i32>(), parse_frac(f[4])) else {
         return "bad-args".into();
     };
     let req = f[2].to_string();
+    if let Some(v) = via {
+        return guarded(move || match spec_of(&req) {
+            None => "bad-req".to_string(),
+            Some(spec) => {
+                if v == 'd' {
+                    show(&IsotopicDistribution::from_composition(c, spec).isotopic_variants(z, carrier))
+                } else {
+                    let mut cache = IsotopicConstantsCache::new();
+                    show(&IsotopicDistribution::from_composition_and_cache(c, spec, &mut cache).isotopic_variants(z, carrier))
+                }
+            }
+        })
+        .unwrap_or_else(|| "panic".into());
+    }
     guarded(move || variants(None, c, &req, z, carrier).map(|l| show(&l)).unwrap_or_else(|| "bad-req".into()))
         .unwrap_or_else(|| "panic".into())
 }
